@@ -134,6 +134,10 @@ impl FileSystem for OverlayFS {
 
     fn create_file(&self, path: &str) -> VfsResult<Box<dyn SeekAndWrite + Send>> {
         self.ensure_has_parent(path)?;
+        // a directory of a lower layer must not be replaced by a file
+        if self.exists(path)? && self.metadata(path)?.file_type == VfsFileType::Directory {
+            return Err(VfsErrorKind::Other("Path is a directory".into()).into());
+        }
         let result = self.write_path(path)?.create_file()?;
         let whiteout_path = self.whiteout_path(path)?;
         if whiteout_path.exists()? {
